@@ -192,6 +192,36 @@ READERS: Dict[str, str] = {
     'kex_dh._KexDHGex._process_group': 'm m .',
     'kex_rsa._KexRSA._process_pubkey': 's s .',
     'kex_rsa._KexRSA._process_done': 's .',
+    # RFC 4462 §3 GSS-API user authentication
+    'auth._ClientGSSMICAuth._process_response': 's .',
+    'auth._ClientGSSMICAuth._process_token': 's .',
+    'auth._ClientGSSMICAuth._process_error': 'u u s s .',
+    'auth._ClientGSSMICAuth._process_error_token': 's .',
+    'auth._ServerGSSMICAuth._process_token': 's .',
+    'auth._ServerGSSMICAuth._process_exchange_complete': '.',
+    'auth._ServerGSSMICAuth._process_error_token': 's .',
+    'auth._ServerGSSMICAuth._process_mic': 's .',
+    # RFC 4252 §7 PK_OK, §8 PASSWD_CHANGEREQ; RFC 4256 §3.2 / §3.4
+    'auth._ClientPublicKeyAuth._process_public_key_ok': 's s .',
+    'auth._ClientPasswordAuth._process_password_change': 's s',
+    'auth._ClientKbdIntAuth._process_info_request': 's s s u (s B)*',
+    'auth._ServerKbdIntAuth._process_info_response': 'u (s)* .',
+    # OpenSSH PROTOCOL §2.4 streamlocal, §2.3 tun
+    'connection.SSHClientConnection.'
+    '_process_forwarded_streamlocal_at_openssh_dot_com_open': 's s .',
+    'connection.SSHServerConnection.'
+    '_process_direct_streamlocal_at_openssh_dot_com_open': 's s u .',
+    'connection.SSHServerConnection.'
+    '_process_streamlocal_forward_at_openssh_dot_com_global_request': 's .',
+    'connection.SSHServerConnection.'
+    '_process_cancel_streamlocal_forward_at_openssh_dot_com_global_request':
+        's .',
+    'connection.SSHServerConnection._process_tun_at_openssh_dot_com_open':
+        'u u .',
+    # RFC 4462 §2.1 GSS key exchange (values parsed by helpers not shown)
+    'kex_dh._KexGSSBase._process_continue': 's .',
+    'kex_dh._KexGSSBase._process_hostkey': 's .',
+    'kex_dh._KexGSSBase._process_error': 'u u s s .',
 }
 
 # writers: (function, message constant) → word
@@ -222,6 +252,51 @@ WRITERS: Dict[Tuple[str, str], str] = {
     ('kex_rsa._KexRSA.start', 'MSG_KEXRSA_PUBKEY'): 's s',
     ('kex_rsa._KexRSA._process_pubkey', 'MSG_KEXRSA_SECRET'): 's',
     ('kex_rsa._KexRSA._process_secret', 'MSG_KEXRSA_DONE'): 's',
+    # RFC 4462 §3 GSS-API user authentication
+    ('auth._ClientGSSMICAuth._finish', 'MSG_USERAUTH_GSSAPI_MIC'): 's',
+    ('auth._ClientGSSMICAuth._finish',
+     'MSG_USERAUTH_GSSAPI_EXCHANGE_COMPLETE'): '',
+    ('auth._ClientGSSMICAuth._process_response',
+     'MSG_USERAUTH_GSSAPI_TOKEN'): 's',
+    ('auth._ClientGSSMICAuth._process_response',
+     'MSG_USERAUTH_GSSAPI_ERRTOK'): 's',
+    ('auth._ClientGSSMICAuth._process_token',
+     'MSG_USERAUTH_GSSAPI_TOKEN'): 's',
+    ('auth._ClientGSSMICAuth._process_token',
+     'MSG_USERAUTH_GSSAPI_ERRTOK'): 's',
+    ('auth._ServerGSSMICAuth._start', 'MSG_USERAUTH_GSSAPI_RESPONSE'): 's',
+    ('auth._ServerGSSMICAuth._process_token',
+     'MSG_USERAUTH_GSSAPI_TOKEN'): 's',
+    ('auth._ServerGSSMICAuth._process_token',
+     'MSG_USERAUTH_GSSAPI_ERROR'): 'u u s s',
+    ('auth._ServerGSSMICAuth._process_token',
+     'MSG_USERAUTH_GSSAPI_ERRTOK'): 's',
+    # RFC 4252 §7, §8; RFC 4256 §3.2, §3.4; RFC 4252 §5.4
+    ('auth._ServerPublicKeyAuth._start', 'MSG_USERAUTH_PK_OK'): 's s',
+    ('auth._ServerPasswordAuth._start',
+     'MSG_USERAUTH_PASSWD_CHANGEREQ'): 's s',
+    ('auth._ServerKbdIntAuth._send_challenge',
+     'MSG_USERAUTH_INFO_REQUEST'): 's s s u ?',
+    ('auth._ClientKbdIntAuth._receive_challenge',
+     'MSG_USERAUTH_INFO_RESPONSE'): 'u ?',
+    ('connection.SSHServerConnection.send_auth_banner',
+     'MSG_USERAUTH_BANNER'): 's s',
+    # RFC 4254 §4, §5.1, §5.4
+    ('connection.SSHConnection._send_global_request',
+     'MSG_GLOBAL_REQUEST'): 's B ?',
+    ('connection.SSHConnection._report_global_response',
+     'MSG_REQUEST_FAILURE'): '',
+    ('channel.SSHChannel._open', 'MSG_CHANNEL_OPEN'): 's u u u ?',
+    ('channel.SSHChannel._send_request', 'MSG_CHANNEL_REQUEST'): 's B ?',
+    ('channel.SSHChannel._report_response', 'MSG_CHANNEL_SUCCESS'): '',
+    ('channel.SSHChannel._report_response', 'MSG_CHANNEL_FAILURE'): '',
+    ('connection.SSHConnection.send_packet', 'MSG_IGNORE'): 's',
+    # RFC 4419 §3 group; RFC 4462 §2.1
+    ('kex_dh._KexDHGex._process_request', '_group_type'): 'm m',
+    ('kex_dh._KexGSSBase._send_continue', 'MSG_KEXGSS_CONTINUE'): 's',
+    ('kex_dh._KexGSSBase._process_token', 'MSG_KEXGSS_CONTINUE'): 's',
+    ('kex_dh._KexGSSBase._process_token', 'MSG_KEXGSS_ERROR'): 'u u s s',
+    ('kex_dh._KexGSSBase._process_gss_init', 'MSG_KEXGSS_HOSTKEY'): 's',
 }
 
 
